@@ -8,7 +8,7 @@
    where the encoder excludes them. *)
 From Coq Require Import ZArith List Bool.
 From ADV Require Import C18.Model C18.Spec C18.SpecTest C18.ProofsBase C18.ProofsScalar C18.ProofsSparse
-  C18.ProofsDense C18.ProofsSparseMat.
+  C18.ProofsDense C18.ProofsSparseMat C18.ProofsInst.
 Import ListNotations.
 Open Scope Z_scope.
 
@@ -133,6 +133,33 @@ Proof. exact dense_reader_unsafe_refuted. Qed.
 Theorem dense_real_reader_panic_refuted :
   read_dm Z Z (read_plain Z Z Zparse) true (mkDmDoc [] (-1) 0) = Panic.
 Proof. exact dense_real_reader_panics_refuted. Qed.
+
+(* the two element codecs of the library plugged in: plain numbers are returned exactly ... *)
+Theorem dense_plain_vector_roundtrip_exact :
+  forall F T (fmtJ : F -> option T) parseJ, token_roundtrip fmtJ parseJ ->
+  forall v d, write_dv F T (write_plain F T fmtJ) v = Ok d -> read_dv F T (read_plain F T parseJ) d = Ok v.
+Proof. exact dense_plain_vector_exact. Qed.
+
+Theorem dense_plain_matrix_roundtrip_all_views :
+  forall F T (fmtJ : F -> option T) parseJ, token_roundtrip fmtJ parseJ ->
+  forall (m : dmat F) d ez, wf_dm m -> write_dm F T (write_plain F T fmtJ) ez m = Ok d ->
+  exists m', read_dm F T (read_plain F T parseJ) false d = Ok m' /\ wf_dm m' /\ dm_obs_eq eq m m'.
+Proof. exact dense_plain_matrix. Qed.
+
+(* ... and Real elements with their derivatives (except Hessian-only elements) *)
+Theorem dense_real_vector_roundtrip :
+  forall F T zero nz (fmtJ : F -> option T) parseJ, nz zero = false -> token_roundtrip fmtJ parseJ ->
+  forall v d, Forall (real_good F nz) v -> write_dv (real F) (sdoc T) (write_real F T nz fmtJ) v = Ok d ->
+  exists v', read_dv (real F) (sdoc T) (read_real F T parseJ) d = Ok v' /\ Forall2 (real_obs_eq F zero nz) v v'.
+Proof. exact dense_real_vector. Qed.
+
+Theorem dense_real_matrix_roundtrip_all_views :
+  forall F T zero nz (fmtJ : F -> option T) parseJ, nz zero = false -> token_roundtrip fmtJ parseJ ->
+  forall (m : dmat (real F)) d ez, wf_dm m -> Forall (real_good F nz) (dm_vals m) ->
+  write_dm (real F) (sdoc T) (write_real F T nz fmtJ) ez m = Ok d ->
+  exists m', read_dm (real F) (sdoc T) (read_real F T parseJ) true d = Ok m' /\ wf_dm m' /\
+             dm_obs_eq (real_obs_eq F zero nz) m m'.
+Proof. exact dense_real_matrix. Qed.
 
 (* ---------------------------------------------------------- sparse matrices *)
 (* full matrices and slices; "the writer returned a document" excludes exactly the slices whose
